@@ -147,9 +147,13 @@ def run_tlc(module, cfg, consts=None, workers=None, timeout=900, extra=None, sim
                 r["violated"] = line.strip()
             if "Model checking completed. No error has been found" in line:
                 r["ok"] = True
-            m = re.match(r"Progress\(\d+\).* (\d+) states generated.* (\d+) distinct states found", line)
+            m = re.match(r"Progress: (\d+) states checked, (\d+) traces generated", line)
             if m and simulate:
-                r["generated"], r["distinct"] = int(m.group(1).replace(",", "")), int(m.group(2).replace(",", ""))
+                r["generated"], r["distinct"] = int(m.group(1)), int(m.group(1))
+                r["traces"] = int(m.group(2))
+            m = re.match(r"The number of states generated: (\d+)", line)
+            if m and simulate:
+                r["generated"] = r["distinct"] = int(m.group(1))
     r["tail"] = "".join(tail[-60:])
     if simulate and rc in (0, -9) and r["violated"] is None:
         r["ok"] = True
